@@ -123,7 +123,8 @@ pub fn eval_node<F: FnMut(&GraphColoredVertices, &str)>(
     // 2) fixed-points
     if is_fixed_point_pattern(&node) {
         progress_callback(&empty_set, "Evaluating fixed-point pattern.");
-        return steady_states.clone();
+        // the pre-computed set belongs to the top-level graph, the current graph can be more restricted
+        return steady_states.intersect(graph.unit_colored_vertices());
     }
 
     let result = match node.node_type {
